@@ -181,8 +181,8 @@ func Classify(c Case) (bool, []string) {
 			} else {
 				labels["result: plain value"] = true
 			}
-			if o.Payload == "json" {
-				labels["json body "+o.BodyType] = true
+			if o.Payload == "json" || o.Payload == "yaml" {
+				labels[o.Payload+" body "+o.BodyType] = true
 			}
 		}
 	}
@@ -263,17 +263,17 @@ func GenBig(t *rapid.T) Case {
 
 const rule = "API descriptions with 1-3 operations (pairwise different methods among GET/POST/PUT/DELETE/PATCH; 7 base paths; templates of 1-4 segments with 0-3 whole-segment placeholders; " +
 	"0-4 query/header parameters and 0-3 form fields of type string/int64/int32/bool/double/array(csv|pipes|ssv|tsv|multi of string|int64), names incl. blanks, '&', '+', non-ASCII and non-canonical header case; " +
-	"payload none / JSON object|array body / urlencoded form / multipart form with 0-2 files; produces json|text|bytes; declared success status; handler result = plain value or middleware.Error(code,data,headers); " +
+	"payload none / JSON or YAML object|array body / urlencoded form / multipart form with 0-2 files; produces json|text|bytes; declared success status; handler result = plain value or middleware.Error(code,data,headers); " +
 	"client auth writer none/apikey-header/apikey-query/basic/bearer/body-reading signer) x 1-3 value tuples each (hostile alphabet under the position's documented restriction; path values non-empty and not dot segments; " +
 	"items of separator-joined arrays non-empty, separator-free, without blanks at the ends; header values without control bytes and outer blanks); driven by ClientRequestWriter Set*Param calls through Runtime.Submit over the wire double into Context.RoutesHandler; " +
-	"oracle = the handler's map equals the supplied typed values, JSON body equal as decoded JSON, files equal by field, base name, size and content, exactly one invocation of the right handler, authenticator callback gets the sent credential; " +
+	"oracle = the handler's map equals the supplied typed values, JSON/YAML body equal as decoded document, files equal by field, base name, size and content, exactly one invocation of the right handler, authenticator callback gets the sent credential; " +
 	"reader sees the handler's status, headers, body bytes, declared media type, and the selected consumer decodes the value; " +
 	"non-trivial = some supplied string contains a byte outside [A-Za-z0-9-_.~] (escaped differently in at least two of path/query/form/header) or a file is present or >=2 parameters share a location; distinct by hash of the whole case"
 
 // Props lists the generated checks of C04.
 func Props() []kit.Runner {
 	return []kit.Runner{
-		kit.Prop[Case]{ID: "C04", Name: "roundtrip", Rule: rule, Quick: 2500, Thorough: 15000,
+		kit.Prop[Case]{ID: "C04", Name: "roundtrip", Rule: rule, Quick: 2200, Thorough: 12000,
 			Gen: Gen, Check: Check, Classify: Classify, Exclude: Exclude, SampleLimit: 2500},
 		kit.Prop[Case]{ID: "C04", Name: "bigfile", Rule: "one multipart upload operation with 1-2 files of 1-33 MiB (around the server's 32 MiB in-memory limit) plus form fields, with and without a body-reading auth writer; same oracle as roundtrip; every case is non-trivial (a file is present)",
 			Quick: 4, Thorough: 6, Gen: GenBig, Check: Check, Classify: Classify, SampleLimit: 1200},
